@@ -16,7 +16,7 @@ func init() {
 		Decided: "(g) a connection slot is stored before the count that makes it selectable is published, both under one lock (a healthy session is never torn down by a draw that misses); (e) the demultiplexing table is only touched under its lock; " +
 			"(c) no alias of the reused receive buffer is retained by a receive buffer implementation (parked frames are private copies); (f) every relay site forwards exactly the bytes its own read returned and both relay directions are started; " +
 			"(b)(c)(d) sequencing under the write mutex, in-order reassembly and one-read-one-record framing are imported from C13, C02 and C05.",
-		NotDecided: "(a) the equality of delivered and written byte sequences itself (run-time values under all schedules); fairness of the random spreading; kernel/socket buffering.",
+		NotDecided:  "(a) the equality of delivered and written byte sequences itself (run-time values under all schedules); fairness of the random spreading; kernel/socket buffering.",
 		Assumptions: []string{"sync.Map and sync/atomic semantics", "rule groups C13.R1-R4, C02.R1-R5, C05.R1-R6 are evaluated as part of this property"},
 	})
 }
